@@ -79,6 +79,11 @@ fn check_inner(sub: &str, g: &G, toks: &[char], l: &mut Local) -> CaseRes {
         l.bump("skipped_fuel");
         return Ok(());
     }
+    if refs.iter().any(|r| r.stats.lo_gt_hi) {
+        // a context value made [at_least, at_most] empty: C02's known finding KF-b, not this property
+        l.steered += 1;
+        return Ok(());
+    }
     let si = StrIn::new(toks);
     let s: &str = &si.s;
     let p = build::<&str, RichS>(g, false);
@@ -178,9 +183,9 @@ pub fn families() -> Vec<G> {
     let digit = || G::OneOf("012".into());
     let mut out = vec![];
     for mode in [1u8, 2, 3] {
-        for sink in [Sink::Vec, Sink::Count, Sink::Bare, Sink::Foldl(b(G::Empty))] {
-            // length-prefixed
-            let body = rep(j("a"), 0, None, sink.clone(), mode);
+        for (si, sink) in [Sink::Vec, Sink::Count, Sink::Bare, Sink::Foldl(b(G::Empty))].into_iter().enumerate() {
+            // length-prefixed (with a static lower bound next to the configured upper bound for mode 2)
+            let body = rep(j("a"), if mode == 2 { (si % 3) as u8 } else { 0 }, None, sink.clone(), mode);
             out.push(G::IgnoreWithCtx(b(digit()), b(body.clone())));
             out.push(G::ThenWithCtx(b(digit()), b(G::Then(b(body.clone()), b(any_rest())))));
             // a list of length-prefixed lists: the consumer sees a different context per item
